@@ -14,7 +14,7 @@ open Content
 def Cfg.good (c : Cfg) : Bool :=
   c.resetsFlags && c.metaCompare && c.tsPositive && c.voidClears && c.pushChecksType &&
   c.setSliceReplaces && c.u32delReleases && c.u32delChecksType && c.incFailClean && c.noEmptyLive &&
-  c.arekAllFalse && c.countMissingOk && c.setErrSingle
+  c.arekAllFalse && c.countMissingOk && c.setErrSingle && c.fltCondDirect
 
 /-- hypothesis of every simulation lemma: good facts, or no quirk tag raised -/
 def Q (cfg : Cfg) (tg : List Tag) : Prop := cfg.good = true ∨ tg = []
@@ -53,6 +53,7 @@ theorem good_noEmptyLive (h : c.good = true) : c.noEmptyLive = true := by simp [
 theorem good_arek (h : c.good = true) : c.arekAllFalse = true := by simp [good] at h; simp [h]
 theorem good_count (h : c.good = true) : c.countMissingOk = true := by simp [good] at h; simp [h]
 theorem good_setErr (h : c.good = true) : c.setErrSingle = true := by simp [good] at h; simp [h]
+theorem good_fltCond (h : c.good = true) : c.fltCondDirect = true := by simp [good] at h; simp [h]
 end Cfg
 
 /-! ### invariant -/
